@@ -84,7 +84,9 @@ digest_s = hash_s.flatmap(
         {
             "suit-digest-algorithm-id": st.just(a),
             # arbitrary bytes, or bytes of exactly the algorithm's output length (plausible but wrong value)
-            "suit-digest-bytes": st.one_of(hexs(64), st.binary(min_size=DIGEST_LEN[a], max_size=DIGEST_LEN[a]).map(bytes.hex)),
+            # ... given as a hex string or in the {raw: hex} notation
+            "suit-digest-bytes": st.one_of(hexs(64), st.binary(min_size=DIGEST_LEN[a], max_size=DIGEST_LEN[a]).map(bytes.hex), hexs(48).map(lambda h: {"raw": h}),
+                                           st.binary(min_size=DIGEST_LEN[a], max_size=DIGEST_LEN[a]).map(lambda b: {"raw": b.hex()})),
         }
     )
 )
@@ -300,8 +302,15 @@ def envelope_s(
         man_entries.update(man_extra)
     man = draw(ordered_subdict(man_entries))
     authw = {"SuitDigest": draw(st.one_of(digest_alg_only_s, digest_s))}
-    for i in range(draw(st.integers(0, max_auth))):
-        authw[f"SuitAuthentication{i}"] = draw(auth_s(risky, cwt))
+    # block names are 'SuitAuthentication<anything>' in description order: numbered as parse shows them (1..N), or with
+    # out-of-order / multi-digit / free-form suffixes
+    nauth = draw(st.integers(0, max_auth))
+    if draw(st.booleans()):
+        suffixes = [str(i + 1) for i in range(nauth)]
+    else:
+        suffixes = draw(st.lists(st.sampled_from(["0", "1", "2", "9", "10", "11", "a", "B", "_x", ""]), min_size=nauth, max_size=nauth, unique=True))
+    for sfx in suffixes:
+        authw[f"SuitAuthentication{sfx}"] = draw(auth_s(risky, cwt))
     # names come from a small pool as well, so that the same name recurs at different nesting levels and among siblings
     pl_names = st.one_of(st.sampled_from(["#file", "#app", "#radio", "#p"]), names.map(lambda n: "#" + n))
     dep_names = st.one_of(st.sampled_from(["#dep", "#app", "#radio", "#top.suit"]), names.map(lambda n: "#d" + n))
